@@ -38,17 +38,6 @@ def groupsSpec (W : List (Str × Str)) : List Group := (keysOf W).map (groupFor 
 
 /-! ### loop = description -/
 
-theorem snoc_induction {α : Type} {motive : List α → Prop} (nil : motive [])
-    (snoc : ∀ l x, motive l → motive (l ++ [x])) : ∀ l, motive l := by
-  intro l
-  have : ∀ r : List α, motive r.reverse := by
-    intro r
-    induction r with
-    | nil => simpa using nil
-    | cons x xs ih => simpa using snoc _ x ih
-  simpa using this l.reverse
-
-
 theorem keysOf_append (W : List (Str × Str)) (x : Str × Str) :
     keysOf (W ++ [x]) = if x.2 ∈ keysOf W then keysOf W else keysOf W ++ [x.2] := by
   unfold keysOf
